@@ -486,6 +486,24 @@ def c19_value_pool(ctx):
                 impl.do('add %s %s 8' % (path, hexs(b'l%d' % lvl))); impl.do('add %s/1 - 1' % path); path = path + '/1/0'
             else:
                 impl.do('add %s %s 1' % (path, hexs(b'g%d' % lvl))); path = path + '/1'
+        # formats assigned while the default format is decimal and while it is hex (explicitly the same as / different from
+        # the default in force at that moment): a later change of the default must change exactly the followers
+        impl.do('add /0 %s 1' % hexs(b'fmt')); fp = '/0/%d' % (i + 2); j = 0
+        for d0 in (0, 1):
+            impl.do('set_default_format %d' % d0)
+            for f in (0, 1, None):
+                for ty, val in ((2, 255), (3, 2**40 + 10)):
+                    impl.do('add %s %s %d' % (fp, hexs(b'd%df%s_%d' % (d0, b'n' if f is None else b'%d' % f, ty)), ty))
+                    impl.do('set_int%s %s/%d %d' % ('64' if ty == 3 else '', fp, j, val))
+                    if f is not None:
+                        impl.do('set_format %s/%d %d' % (fp, j, f))
+                    j += 1
+            impl.do('add %s %s 7' % (fp, hexs(b'arr%d' % d0)))
+            for f in (0, 1):
+                impl.do('add %s/%d - 2' % (fp, j)); impl.do('set_int %s/%d/%d 171' % (fp, j, f)); impl.do('set_format %s/%d/%d %d' % (fp, j, f, f))
+            j += 1
+        for d in (0, 1, 0):
+            impl.do('set_default_format %d' % d); impl.do('write'); stats['c19:format-grid-write'] = stats.get('c19:format-grid-write', 0) + 1
         words = range(64) if ctx['tier'] == 'thorough' else [0x20 | rng.below(64), rng.below(64) & ~0x20, rng.below(64)]
         for o in words:
             impl.do('set_options %d' % o)
@@ -495,7 +513,14 @@ def c19_value_pool(ctx):
                 impl.do('set_default_format %d' % rng.below(2))
                 impl.do('write')
                 stats['c19:pool-write'] = stats.get('c19:pool-write', 0) + 1
-    correspondence(ctx, [fn], proj_write, None, 'C19 writer output', 'value-pool')
+    def parsed(impl, rng, stats):
+        # hex literals parsed while the default format is hex / decimal, then written under both defaults
+        for d0 in (0, 1):
+            impl.do('init'); impl.do('set_default_format %d' % d0)
+            impl.do('read_string ' + hexs(b'a = 0x10; b = 16; c = [ 0xFFL, 255L ]; l = ( 0x1, 1, 0x1L, 1L );'))
+            for d in (1 - d0, d0, 1 - d0):
+                impl.do('set_default_format %d' % d); impl.do('write'); stats['c19:parsed-format-write'] = stats.get('c19:parsed-format-write', 0) + 1
+    correspondence(ctx, [fn, parsed], proj_write, None, 'C19 writer output', 'value-pool')
 
 def run_C19(ctx):
     c19_value_pool(ctx)
@@ -574,7 +599,7 @@ def run_C08(ctx):
 
 def proj_err(op, out):
     w = first_word(op)
-    if w in ('read_string', 'read_stream', 'read_file', 'write_file', 'read_stream_fail'):
+    if w in ('read_string', 'read_stream', 'read_file', 'write_file', 'read_stream_fail', 'read_stream_fail1'):
         return out.split(' ')[0]
     if w == 'err':
         return out
@@ -609,12 +634,16 @@ def run_C09(ctx):
     iomid = ('failing-stream-mid-setting', [], 'read_stream_fail 0 ' + H(b'a = 1;\nb = [ 1, 2,'), '1 %s - 0' % b'file I/O error'.hex())
     # an error located after a token that spans several lines (a string literal with raw newlines): every newline counts
     multiline = ('syntax-after-3-line-string-l5', [], 'read_string ' + H(b's = "one\ntwo\nthree";\nt = 1;\nu = ;\n'), '2 %s - 5' % b'syntax error'.hex())
-    ev2 = events + [deep, multi, iofail, iomid, multiline]
-    d = len(events); m = d + 1; io = d + 2; im = d + 3; ml = d + 4
+    # the same two with a TRANSIENT failure: one read fails, the stream then reports end of file - the text is truncated
+    # all the same, and the failure must be reported
+    iofail1 = ('failing-once-stream', [], 'read_stream_fail1 0 ' + H(b'a = 1;\nb = 2;\n'), '1 %s - 0' % b'file I/O error'.hex())
+    iomid1 = ('failing-once-stream-mid-setting', [], 'read_stream_fail1 7 ' + H(b'a = 1;\nb = [ 1, 2,'), '1 %s - 0' % b'file I/O error'.hex())
+    ev2 = events + [deep, multi, iofail, iomid, multiline, iofail1, iomid1]
+    d = len(events); m = d + 1; io = d + 2; im = d + 3; ml = d + 4; io1 = d + 5; im1 = d + 6
     # alone, after a syntax error, before a syntax error, before a missing file; the multi-include error and the failing
     # stream alone, after and before other failures
     seqs2 = [(d,), (1, d), (d, 1), (d, 9), (m,), (1, m), (m, 2), (io,), (1, io), (io, 1), (3, io, 0), (io, m),
-             (im,), (1, im), (im, 3), (0, im), (ml,), (3, ml), (ml, 1)]
+             (im,), (1, im), (im, 3), (0, im), (ml,), (3, ml), (ml, 1), (io1,), (1, io1), (io1, 0), (im1,), (im1, 1), (io, im1)]
     e = {}
     correspondence(ctx, [streams.sess_c09(seqs2, ev2, e)], proj_err, streams.oracle_c09(e), 'C09 error information', 'stack-exhaustion')
 
